@@ -205,6 +205,8 @@ class Program:
                 d = json.load(fh)
             crate = d["crate"]
             uk = d["unit_kind"]
+            if d.get("stolen", 0):
+                raise FactsError("fact file %s is incomplete: %d MIR bodies were already consumed by the compiler" % (f, d["stolen"]))
             self.units.append({"crate": crate, "kind": uk, "bodies": d["n_bodies"], "file": os.path.basename(f)})
             for k, v in d["adts"].items():
                 self.adts[k] = v
